@@ -258,16 +258,21 @@ theorem hook_cycle_new_is_true_on_witness :
 
 /-- **Old and new agree on every name the repaired code expands**: same hooks, given as many stack
 frames as there are groups (plus one); and whatever the old code expanded without overflowing, the
-repaired code expands to the same hooks.  The two differ only on names that reach a cycle. -/
+current code expands to the same hooks — provided the name stays within the limits introduced later
+(537f12e, a9033b3: `ResolvesWithin`; without that proviso the second half is false of the current
+code: a chain of 33 groups).  The two differ only on names that reach a cycle or exceed a limit. -/
 theorem hook_old_eq_new_of_ok (cfg : Config.Config) (n : String) (r : List Config.Hook) :
     (Config.getHook cfg n = .ok r → getHookOld cfg (Config.expandFuel cfg) n = .ok r) ∧
-    (∀ depth, getHookOld cfg depth n = .ok r → Config.getHook cfg n = .ok r) := by
-  refine ⟨fun h => getHookOld_of_expandHook cfg _ _ n r h, ?_⟩
-  intro depth h
-  have hd := getHookOld_denotes cfg depth n r h
-  obtain ⟨r', hr'⟩ := Config.getHook_ok_of_resolves (hd.resolves n (by simp))
-  have hd' := Config.expandHook_denotes cfg _ _ n r' hr'
-  rw [hr', hd.unique hd']
+    (∀ depth, getHookOld cfg depth n = .ok r → Spec.C14.ResolvesWithin cfg n →
+      Config.getHook cfg n = .ok r) := by
+  refine ⟨fun h => ?_, ?_⟩
+  · obtain ⟨b, hb⟩ := Config.getHook_ok h
+    exact getHookOld_of_expandHook cfg _ _ _ n r b hb
+  · intro depth h hw
+    have hd := getHookOld_denotes cfg depth n r h
+    obtain ⟨r', hr'⟩ := Config.getHook_ok_of_within hw
+    have hd' := Config.getHook_denotes hr'
+    rw [hr', hd.unique hd']
 
 end C19
 
@@ -356,7 +361,7 @@ theorem loader_with_current_block (files : List (Nat × FileContent (List Nat)))
     loadTreeOrderWith mergedOptions files main = loadTreeOrder files main := by
   unfold loadTreeOrderWith loadTreeOrder
   rw [readCnfWith_current]
-  cases readCnf files (fun _ ps => ps) (loadFuel files) main [] <;> rfl
+  cases readCnf files (fun _ ps => ps) (loadFuel files) 0 main [] <;> rfl
 
 /-- **Old and new merge agree on every option the old block assigned, and wherever the included
 file does not set the option**; on a dropped option the old merge keeps the including file's value
